@@ -197,8 +197,9 @@ groups:;
 	/* 5. multi-group strings over group classes: state carry and stop-at-'=' */
 	{
 		static const char *valid[] = { "QUJD", "-_-_", "+/+/", "AAAA", "____" };
-		static const char foreign[] = { '!', '.', ' ', (char)0x80, '=' };
-		char groups[64][5];
+		/* foreign bytes, among them high-bit bytes whose low seven bits are a symbol of one of the alphabets (A, _, -, +, /, =) */
+		static const char foreign[] = { '!', '.', ' ', (char)0x80, '=', (char)0xC1, (char)0xDF, (char)0xAD, (char)0xAB, (char)0xAF, (char)0xBD, (char)0xFF };
+		char groups[80][5];
 		int ng = 0;
 		for (unsigned v = 0; v < 5; v++)
 			strcpy(groups[ng++], valid[v]);
@@ -246,6 +247,14 @@ groups:;
 				chk_decode(s, len);
 				s[len / 2] = '!';   /* foreign byte in the middle */
 				chk_decode(s, len);
+				/* a high-bit byte that aliases a symbol, at each offset inside a group well before the end */
+				for (int off = 0; off < 8 && len > 24; off++) {
+					s[len / 2] = ref_b64_abc[len & 63];
+					char keep = s[8 + off];
+					s[8 + off] = (char)0xC1;
+					chk_decode(s, len);
+					s[8 + off] = keep;
+				}
 			}
 			free(s);
 			free(x);
